@@ -42,11 +42,13 @@ def default_equal(a, b):
 
 
 def object_world(ctx, name, kinds, new, ops, do, modules, depth, check=None, equal=default_equal,
-                 state=None, max_objects=3, nodedup_depth=3, enabled=None, bounds=None, lit=None):
+                 state=None, max_objects=3, nodedup_depth=3, enabled=None, bounds=None, lit=None, must_raise=None):
     """register and run the part.  ``new(kind)`` builds an object, ``do(obj, kind, op)`` applies
     the plain-literal ``op`` and returns a picklable result, ``modules()`` returns the list of
     modules whose globals belong to the state (called inside the child), ``state(obj)`` what to
-    fingerprint of an object (default: its __dict__), ``enabled(kind, op)`` filters the menu."""
+    fingerprint of an object (default: its __dict__), ``enabled(kind, op)`` filters the menu,
+    ``must_raise(kind, op)`` tells which ops are rejected calls (they must raise; every other op must not:
+    an exception that is the same in the history and in the reference run would otherwise pass unnoticed)."""
     if state is None:
         def state(o):
             return getattr(o, "__dict__", None)
@@ -99,6 +101,14 @@ def object_world(ctx, name, kinds, new, ops, do, modules, depth, check=None, equ
                                "the only call of the process" % (op, kind, last[0] + " " + str(lit(res))[:200], hist[:-1],
                                                                  ref[0] + " " + str(lit(ref[3]))[:200]))
                 return None
+            wants_error = bool(must_raise is not None and must_raise(kind, op))
+            if last[0] == "exc" and not wants_error:
+                rec.fail(hist, "%r on a %s object raised %s (after the history %r)" % (op, kind, res, hist[:-1]))
+                return None
+            if last[0] == "ok" and wants_error:
+                rec.fail(hist, "%r on a %s object must be rejected but returned %s (after the history %r)"
+                         % (op, kind, str(lit(res))[:200], hist[:-1]))
+                return None
             if last[0] == "ok":
                 if check is not None:
                     msg = check(kind, op, res)
@@ -145,7 +155,7 @@ def _snap(r):
 
 
 def call_sequences(ctx, name, make_pool, calls, run, modules, depth, mutations=(), mutate=None, equal=None,
-                   nodedup_depth=2, bounds=None, enabled_after=None, result_edits=False):
+                   nodedup_depth=2, bounds=None, enabled_after=None, result_edits=False, must_raise=None):
     """E2 over sequences of calls of module-level functions that are documented as pure.
 
     A pool of named argument arrays (``make_pool()`` -> dict) lives for the whole history, so the
@@ -223,6 +233,14 @@ def call_sequences(ctx, name, make_pool, calls, run, modules, depth, mutations=(
         if msg:
             rec.fail(hist, msg)
             return None
+        if last is not None:
+            wants_error = bool(must_raise is not None and must_raise(hist, hist[-1][1:]))
+            if last[0] == "exc" and not wants_error:
+                rec.fail(hist, "call %r raised %s (after %r)" % (hist[-1][1:], last[1], hist[:-1]))
+                return None
+            if last[0] == "ok" and wants_error:
+                rec.fail(hist, "call %r must be rejected but returned a result (after %r)" % (hist[-1][1:], hist[:-1]))
+                return None
         if last is not None and len(hist) > 1:
             st1, out1 = in_child(lambda: child(hist, only_last_call=True))
             if st1 != "ok":
